@@ -2,7 +2,7 @@
    Statements only; proofs in Lemmas/Repr.v (and the C05 / C18 lemmas). *)
 From Coq Require Import List Reals QArith.
 From FDAV Require Import Base.Num Base.Vec Base.Quad Model.Stats Model.Basis Model.Pspline Model.Repr
-  Lemmas.Vec Lemmas.Pspline Lemmas.Basis Lemmas.Repr.
+  Lemmas.Vec Lemmas.Gram Lemmas.Pspline Lemmas.Basis Lemmas.Repr Lemmas.CovCommute.
 Import ListNotations.
 Local Open Scope R_scope.
 
@@ -36,8 +36,14 @@ Theorem C14_scaling_commutes : forall m Phi a c, Forall (fun r => length r = m) 
   mtv opsR m Phi (vscale opsR a c) = vscale opsR a (mtv opsR m Phi c).
 Proof. exact scaling_commutes. Qed.
 Print Assumptions C14_scaling_commutes.
-(* C14_cov_commutes_partial: (n-1)*cov_grid = n*cov_coef evaluated on the grid is NOT proved; it is
-   checked by the correspondence run.  2-D bases: C18_tensor_row_major. *)
+(* covariances: (n-1) * cov_grid(s,t) = n * phi(s)^T cov_coef phi(t)   (2-D bases: C18_tensor_row_major) *)
+Theorem C14_cov_commutes_up_to_n : forall m K Phi C s t, C <> [] -> (2 <= length C)%nat ->
+  Forall (fun r => length r = m) Phi -> length Phi = K -> Forall (fun c => length c = K) C ->
+  (s < m)%nat -> (t < m)%nat ->
+  INR (length C - 1) * ent (cov opsR m (to_grid opsR m Phi C)) s t =
+  INR (length C) * cov_coef_at opsR K Phi C s t.
+Proof. exact cov_commutes_up_to_n. Qed.
+Print Assumptions C14_cov_commutes_up_to_n.
 
 (* expanding into a spline basis = P-spline smoothing (C05); with zero penalty a curve of the spline
    space gets back its own coefficients (uniqueness: C05_coef_unique) *)
